@@ -24,9 +24,11 @@ Record bst := mkB {
   b_pending : list nat;     (* parse goroutines started whose on-load has not run yet *)
   b_loaded : list nat;      (* identities whose on-load ran *)
   b_written : bool;         (* outputs written *)
-  b_endNext : nat; b_endOpen : bool; b_endStopped : bool }.
+  b_endNext : nat; b_endOpen : bool; b_endStopped : bool;
+  b_parsing : list nat;     (* parse goroutines past on-load: resolving the imports, result not yet received by the scan loop *)
+  b_resolved : list (nat * nat) }.  (* parseFile's resolver caches: (file, key) already resolved *)
 
-Definition bst0 := mkB [] [] false [] [] [] false 0 false false.
+Definition bst0 := mkB [] [] false [] [] [] false 0 false false [] [].
 
 Inductive bact :=
 | AStartBegin (i : nat) | AStartEnd (i : nat) | ABarrier
@@ -36,7 +38,9 @@ Inductive bact :=
 | AWrite                 (* scan finished, link, write outputs *)
 | AEndBegin | AEndEnd (failed : bool)
 | AInjectResolve         (* preprocessInjectedFiles: on-resolve callback for an Inject path *)
-| AInjectVisit (id : nat). (* preprocessInjectedFiles: maybeParseFile for a resolved Inject path *)
+| AInjectVisit (id : nat)  (* preprocessInjectedFiles: maybeParseFile for a resolved Inject path *)
+| AResolveIn (id key : nat) (* the parse goroutine of file id runs the on-resolve callbacks for one of its imports *)
+| ADeliver (id : nat).      (* the scan loop receives the parse result of file id *)
 
 Fixpoint remove1 (k : nat) (l : list nat) : list nat :=
   match l with [] => [] | x :: r => if Nat.eqb k x then r else x :: remove1 k r end.
@@ -46,45 +50,46 @@ Definition bexec (nS nE : nat) (s : bst) (a : bact) : option (bst * option peven
   | AStartBegin i =>
       if (i <? nS) && negb (memn i (b_sb s)) && negb (b_barrier s)
       then Some (mkB (i :: b_sb s) (b_se s) (b_barrier s) (b_visited s) (b_pending s) (b_loaded s)
-                     (b_written s) (b_endNext s) (b_endOpen s) (b_endStopped s), Some (PSB i))
+                     (b_written s) (b_endNext s) (b_endOpen s) (b_endStopped s) (b_parsing s) (b_resolved s), Some (PSB i))
       else None
   | AStartEnd i =>
       if memn i (b_sb s) && negb (memn i (b_se s))
       then Some (mkB (b_sb s) (i :: b_se s) (b_barrier s) (b_visited s) (b_pending s) (b_loaded s)
-                     (b_written s) (b_endNext s) (b_endOpen s) (b_endStopped s), Some (PSE i))
+                     (b_written s) (b_endNext s) (b_endOpen s) (b_endStopped s) (b_parsing s) (b_resolved s), Some (PSE i))
       else None
   | ABarrier =>
       if Nat.eqb (length (b_se s)) nS
       then Some (mkB (b_sb s) (b_se s) true (b_visited s) (b_pending s) (b_loaded s)
-                     (b_written s) (b_endNext s) (b_endOpen s) (b_endStopped s), None)
+                     (b_written s) (b_endNext s) (b_endOpen s) (b_endStopped s) (b_parsing s) (b_resolved s), None)
       else None
   | AVisit id =>
       if b_barrier s && negb (b_written s) then
         if memn id (b_visited s) then Some (s, None)
         else Some (mkB (b_sb s) (b_se s) (b_barrier s) (id :: b_visited s) (id :: b_pending s) (b_loaded s)
-                       (b_written s) (b_endNext s) (b_endOpen s) (b_endStopped s), None)
+                       (b_written s) (b_endNext s) (b_endOpen s) (b_endStopped s) (b_parsing s) (b_resolved s), None)
       else None
   | AResolve =>
       if b_barrier s && negb (b_written s) then Some (s, Some PRes) else None
   | ALoad id =>
       if memn id (b_pending s)
       then Some (mkB (b_sb s) (b_se s) (b_barrier s) (b_visited s) (remove1 id (b_pending s)) (id :: b_loaded s)
-                     (b_written s) (b_endNext s) (b_endOpen s) (b_endStopped s), Some (PLoad id))
+                     (b_written s) (b_endNext s) (b_endOpen s) (b_endStopped s) (id :: b_parsing s) (b_resolved s), Some (PLoad id))
       else None
   | AWrite =>
       if b_barrier s && negb (b_written s) && (match b_pending s with [] => true | _ => false end)
+         && (match b_parsing s with [] => true | _ => false end)
       then Some (mkB (b_sb s) (b_se s) (b_barrier s) (b_visited s) (b_pending s) (b_loaded s)
-                     true (b_endNext s) (b_endOpen s) (b_endStopped s), None)
+                     true (b_endNext s) (b_endOpen s) (b_endStopped s) (b_parsing s) (b_resolved s), None)
       else None
   | AEndBegin =>
       if b_written s && negb (b_endOpen s) && negb (b_endStopped s) && (b_endNext s <? nE)
       then Some (mkB (b_sb s) (b_se s) (b_barrier s) (b_visited s) (b_pending s) (b_loaded s)
-                     (b_written s) (b_endNext s) true (b_endStopped s), Some (PEB (b_endNext s) true))
+                     (b_written s) (b_endNext s) true (b_endStopped s) (b_parsing s) (b_resolved s), Some (PEB (b_endNext s) true))
       else None
   | AEndEnd f =>
       if b_endOpen s
       then Some (mkB (b_sb s) (b_se s) (b_barrier s) (b_visited s) (b_pending s) (b_loaded s)
-                     (b_written s) (S (b_endNext s)) false f, Some (PEE (b_endNext s) f))
+                     (b_written s) (S (b_endNext s)) false f (b_parsing s) (b_resolved s), Some (PEE (b_endNext s) f))
       else None
   (* the inject phase is part of the scan: it is guarded by the barrier exactly
      like the resolution and the visit of ordinary imports *)
@@ -94,7 +99,21 @@ Definition bexec (nS nE : nat) (s : bst) (a : bact) : option (bst * option peven
       if b_barrier s && negb (b_written s) then
         if memn id (b_visited s) then Some (s, None)
         else Some (mkB (b_sb s) (b_se s) (b_barrier s) (id :: b_visited s) (id :: b_pending s) (b_loaded s)
-                       (b_written s) (b_endNext s) (b_endOpen s) (b_endStopped s), None)
+                       (b_written s) (b_endNext s) (b_endOpen s) (b_endStopped s) (b_parsing s) (b_resolved s), None)
+      else None
+  (* imports are resolved in the parse goroutine, after the file was loaded;
+     the per-file resolver cache makes each (kind, specifier, attributes) hit
+     the plugins once *)
+  | AResolveIn id key =>
+      if memn id (b_parsing s) && negb (memp id key (b_resolved s))
+      then Some (mkB (b_sb s) (b_se s) (b_barrier s) (b_visited s) (b_pending s) (b_loaded s)
+                     (b_written s) (b_endNext s) (b_endOpen s) (b_endStopped s) (b_parsing s) ((id, key) :: b_resolved s),
+                 Some (PResK id key))
+      else None
+  | ADeliver id =>
+      if memn id (b_parsing s)
+      then Some (mkB (b_sb s) (b_se s) (b_barrier s) (b_visited s) (b_pending s) (b_loaded s)
+                     (b_written s) (b_endNext s) (b_endOpen s) (b_endStopped s) (remove1 id (b_parsing s)) (b_resolved s), None)
       else None
   end.
 
